@@ -202,6 +202,41 @@ inductive Outcome where
   | stop (reason : String)
   deriving Repr, DecidableEq, Inhabited
 
+/-- Settings arm, first half: push our scheme when the announced md5 differs -/
+def Sess.maybePushScheme (s : Sess) (m : List (Bytes × Bytes)) : Sess × Res :=
+  match mapGet m (asciiBytes "padding-md5") with
+  | some cm =>
+    if cm != asciiBytes s.schemeMd5 then
+      s.writeFrame { cmd := .updatePaddingScheme, sid := 0, data := s.scheme.raw }
+    else (s, .ok)
+  | none => (s, .ok)
+
+/-- Settings arm, second half: record the peer version and answer with ServerSettings -/
+def Sess.maybeServerSettings (s : Sess) (m : List (Bytes × Bytes)) : Sess × Outcome :=
+  match (mapGet m (asciiBytes "v")).bind u8OfAscii with
+  | some v =>
+    if v ≥ 2 then
+      let s := { s with peerVersion := v }
+      let payload := settingsBytes (("v", "2") :: s.serverSettings)
+      match s.writeFrame { cmd := .serverSettings, sid := 0, data := payload } with
+      | (s', .ok) => (s', .continue)
+      | (s', _) => (s', .stop "write failed")
+    else (s, .continue)
+  | none => (s, .continue)
+
+def Sess.handleSettings (s : Sess) (data : Bytes) : Sess × Outcome :=
+  let m := parseMap data
+  match s.maybePushScheme m with
+  | (s1, .ok) => s1.maybeServerSettings m
+  | (s1, _) => (s1, .stop "write failed")
+
+/-- Alert arm: every registered stream is marked closed, then the session is torn down -/
+def Sess.handleAlert (s : Sess) (data : Bytes) : Sess × Outcome :=
+  let msg := if !data.isEmpty then stringOfBytes data else "Unknown alert"
+  let inStreams := fun (i : Nat) => s.streams.any (·.2 == i)
+  let objs' := s.objs.mapIdx (fun i o => if inStreams i = true then o.closeWithError else o)
+  ({ s with objs := objs' }.close, .stop ("Alert: " ++ msg))
+
 /-- `handle_frame` -/
 def Sess.handleFrame (s : Sess) (f : Frame) : Sess × Outcome :=
   match f.cmd with
@@ -232,30 +267,7 @@ def Sess.handleFrame (s : Sess) (f : Frame) : Sess × Outcome :=
     let s := s.dropRecvEntry f.sid
     ({ s with streams := tblRemove s.streams f.sid, recv := tblRemove s.recv f.sid }, .continue)
   | .settings =>
-    if !s.isClient && !f.data.isEmpty then
-      let m := parseMap f.data
-      -- padding-md5 mismatch ⇒ push our scheme
-      let (s, r1) :=
-        match mapGet m (asciiBytes "padding-md5") with
-        | some cm =>
-          if cm != asciiBytes s.schemeMd5 then
-            s.writeFrame { cmd := .updatePaddingScheme, sid := 0, data := s.scheme.raw }
-          else (s, .ok)
-        | none => (s, .ok)
-      match r1 with
-      | .ok =>
-        match (mapGet m (asciiBytes "v")).bind u8OfAscii with
-        | some v =>
-          if v ≥ 2 then
-            let s := { s with peerVersion := v }
-            let payload := settingsBytes (("v", "2") :: s.serverSettings)
-            match s.writeFrame { cmd := .serverSettings, sid := 0, data := payload } with
-            | (s', .ok) => (s', .continue)
-            | (s', _) => (s', .stop "write failed")
-          else (s, .continue)
-        | none => (s, .continue)
-      | _ => (s, .stop "write failed")
-    else (s, .continue)
+    if !s.isClient && !f.data.isEmpty then s.handleSettings f.data else (s, .continue)
   | .serverSettings =>
     if s.isClient && !f.data.isEmpty then
       match (mapGet (parseMap f.data) (asciiBytes "v")).bind u8OfAscii with
@@ -265,12 +277,7 @@ def Sess.handleFrame (s : Sess) (f : Frame) : Sess × Outcome :=
   | .updatePaddingScheme =>
     -- modelled in `Sess.handleUpdate` (needs the process-wide default; see C19)
     (s, .continue)
-  | .alert =>
-    let msg := if !f.data.isEmpty then stringOfBytes f.data else "Unknown alert"
-    let inStreams := fun (i : Nat) => s.streams.any (·.2 == i)
-    let objs' := s.objs.mapIdx (fun i o => if inStreams i = true then o.closeWithError else o)
-    let s := { s with objs := objs' }
-    (s.close, .stop ("Alert: " ++ msg))
+  | .alert => s.handleAlert f.data
   | .heartRequest =>
     match s.writeFrame { cmd := .heartResponse, sid := f.sid, data := [] } with
     | (s', .ok) => (s', .continue)
